@@ -301,6 +301,7 @@ def run(ctx):
   r7_no_cross_subgraph_id_containers(ctx)
   _r3(ctx)
   shared.rule_performer_translation(ctx, 'C19.R9')
+  shared.rule_performer_simulation(ctx, 'C19.R10')
 
 
 def _relabel(ctx, old, new, title, fn):
